@@ -496,10 +496,15 @@ def monitors(res, cfg, eng, script):
             continue
         if ws:
             body = frames[0][1]
+            if not body or len(body) < 1 + body[0]:
+                res.violation('C11', 'write-before-info', 'blocking Client sent %d frame(s) on connection %d whose OP_INFO is malformed (no name field): there is no nonce to answer' % (len(ws), k), script)
+                continue
             n = body[0]
             rand = body[1 + n:]
             if ws[0] != P.msgauth(rand, ident, secret):
                 res.violation('C11', 'first-frame-auth', 'blocking Client: the first frame on connection %d is not the OP_AUTH for that connection\'s nonce (opcode %d)' % (k, ws[0][4]), script)
+                if k > min(eng.socks):
+                    res.violation('C13', 'reconnect-not-authenticated', 'blocking Client: connection %d (a re-connection) received a well-formed OP_INFO first and the client answered with something other than the OP_AUTH for that nonce: it does not come back authenticated' % k, script)
     check_subscribe_blocks(res, ident, events, lines, script)
     check_callbacks(res, eng, script)
     check_stop_and_reconnect(res, events, lines, script)
